@@ -238,6 +238,8 @@ def run(chk):
     chk.rule("R-NPTS", "after any method that rebinds the values, npts equals the length of the values")
     chk.rule("R-ORDER", "producers set the validity flag after the last store to the storage and do not read their own storage")
     chk.rule("R-INIT", "constructors return with every flag False and the memo empty")
+    chk.rule("R-GUARD", "every getter, run with all validity flags False, returns a recomputed value (never the old storage): each "
+                        "getter of a cached quantity is guarded by that quantity's flag")
     chk.rule("R-MEMOKEY", "a memoising getter tests, reads and stores one and the same literal key")
     chk.rule("R-WHOWRITES", "no code outside the signal classes stores to cache flags, storage or inputs")
     models = {}
@@ -259,6 +261,7 @@ def run(chk):
                 raise AnalysisError("empty read set derived for %s of %s" % (q, cq))
         check_class(chk, P, ci, m, qs)
     check_who_writes(chk, P, models)
+    chk.floor("R-GUARD", 30)
     chk.floor("R-INV", 90)
     chk.floor("R-CLEAR", 2)
     chk.floor("R-GETPURE", 20)
@@ -354,6 +357,23 @@ def check_class(chk, P, ci, m, qs):
             chk.ob("R-NPTS", construct, "npts == len(values) at exit", ok,
                    derived="len(values)=%r npts=%r" % (ln, n.sym if n is not None else None),
                    inconclusive=(not ok and incon), loc=rebound[-1].loc)
+    # ---------------------------------------------------------------- R-GUARD: with every flag invalid, no getter returns old storage
+    for meth in entries_of(ci):
+        if not meth.is_property:
+            continue
+        I = Interp(P)
+        I.atoms = {R, DT}
+        st = State()
+        o, oav = make_signal(I, st, ci, name="self", flags="cold", is_param=False)
+        ret, _, _ = I.run(meth, {meth.params[0]: oav}, st, self_obj=o)
+        chk.absorb_interp(I)
+        vals = [ret] + list(ret.items or ())
+        stale = sorted({t for v in vals for t in v.tags if t.startswith("stored:")})
+        chk.ob("R-GUARD", "%s:%s.%s" % (meth.module.relpath, cname, meth.name),
+               "with its validity flag False (or memo empty) the getter recomputes: the result does not derive from old storage", not stale,
+               derived="result derives from stale storage %s" % [t[7:] for t in stale] if stale else "recomputed or not cached",
+               loc=meth.loc(), detail="read after a change returns the value cached before the change" if stale else None,
+               nontrivial=any(e.kind == "attr-read" and e.attr in storage_all for e in I.events))
     # ---------------------------------------------------------------- R-CLEAR
     cc = ci.find_method("clear_cache")
     if cc is None:
